@@ -11,22 +11,36 @@ Local Open Scope Z_scope.
 
 (* Host.is_up: True / False / None *)
 Inductive upstate := Up | Down | Unknown.
-Definition hoststates := list (Z * upstate).     (* Metadata._hosts restricted to what the property reads; absent = unknown host *)
+Definition endpoint := (Z * Z)%type.             (* DefaultEndPoint (address, port) *)
+Definition ep_eqb (a b : endpoint) : bool := (fst a =? fst b) && (snd a =? snd b).
+Definition hoststates := list (endpoint * upstate).   (* Metadata._hosts restricted to what the property reads; absent = unknown host *)
 Definition version := option Z.
 
 Record snapshot := {
   s_local : option version;            (* None: system.local returned no row *)
-  s_peers : list (Z * version)         (* (endpoint built by endpoint_factory.create(row), row['schema_version']) *)
+  s_peers : list (endpoint * version)  (* (endpoint built by endpoint_factory.create(row), row['schema_version']) *)
 }.
 
-Fixpoint lookup (h : hoststates) (e : Z) : option upstate :=
+Fixpoint lookup (h : hoststates) (e : endpoint) : option upstate :=
   match h with
   | [] => None
-  | (e', u) :: r => if e =? e' then Some u else lookup r e
+  | (e', u) :: r => if ep_eqb e e' then Some u else lookup r e
   end.
 
+(* a row of system.peers (native_port = None: the table has no such column) or system.peers_v2, as stored in the table.
+   The schema-agreement peers query selects the address AND (peers_v2) native_port, so endpoint_factory.create builds
+   (address, native_port); without a positive port the cluster's default port is used (DefaultEndPointFactory) *)
+Definition raw_row := (Z * option Z * version)%type.
+
+Definition row_endpoint (default_port : Z) (r : raw_row) : endpoint :=
+  let '(a, p, _) := r in
+  (a, match p with Some q => if 0 <? q then q else default_port | None => default_port end).
+
+Definition RSn (default_port : Z) (local : option version) (rows : list raw_row) : snapshot :=
+  {| s_local := local; s_peers := map (fun r : raw_row => (row_endpoint default_port r, snd r)) rows |}.
+
 (* `peer and peer.is_up is not False` *)
-Definition counted (h : hoststates) (e : Z) : bool :=
+Definition counted (h : hoststates) (e : endpoint) : bool :=
   match lookup h e with
   | Some Down => false
   | Some _ => true
@@ -43,7 +57,7 @@ Definition local_versions (s : snapshot) : list Z :=
   | _ => []
   end.
 
-Fixpoint peer_versions (h : hoststates) (rows : list (Z * version)) (acc : list Z) : list Z :=
+Fixpoint peer_versions (h : hoststates) (rows : list (endpoint * version)) (acc : list Z) : list Z :=
   match rows with
   | [] => acc
   | (e, None) :: r => peer_versions h r acc
@@ -138,7 +152,8 @@ Record env := {
 }.
 
 Record future_obs := {
-  f_is_schema_agreed : bool;            (* ResponseFuture.is_schema_agreed when the final result is set *)
+  f_is_schema_agreed : bool;            (* ResponseFuture.is_schema_agreed after everything ran *)
+  f_at_delivery : option bool;          (* is_schema_agreed as seen by an add_callback callback / a result() waiter *)
   f_refreshed : bool;                   (* Metadata.refresh was called *)
   f_resubmitted : bool;                 (* control_conn.refresh_schema re-submitted after an exception *)
   f_final_set : bool;                   (* _set_final_result(None) happened *)
@@ -157,15 +172,35 @@ Definition refresh_schema (e : env) (o : outcome) : option bool * bool (* refres
     else (Some true, true)
   end.
 
+(* the future as its observers see it: the flag, and what the flag was when the request was delivered
+   (_set_final_result: event set, add_callback callbacks run, result() returns) *)
+Record fut := { fu_flag : bool; fu_delivered : option bool }.
+Inductive fstep := FSet (b : bool) | FDeliver.
+
+Definition fstep_apply (f : fut) (s : fstep) : fut :=
+  match s with
+  | FSet b => {| fu_flag := b; fu_delivered := fu_delivered f |}
+  | FDeliver => {| fu_flag := fu_flag f; fu_delivered := match fu_delivered f with None => Some (fu_flag f) | d => d end |}
+  end.
+
+(* _set_result: `self.is_schema_agreed = False`; refresh_schema_and_set_result: `try: fut.is_schema_agreed = _refresh_schema(...)`
+   (no assignment when it raised), `finally: fut._set_final_result(None)` -- in this order *)
+Definition future_steps (r : option bool) : list fstep :=
+  [FSet false] ++ match r with Some b => [FSet b] | None => [] end ++ [FDeliver].
+
+Definition run_future (steps : list fstep) : fut := fold_left fstep_apply steps {| fu_flag := true; fu_delivered := None |}.
+
 (* _set_result(RESULT_KIND_SCHEMA_CHANGE): is_schema_agreed = False; submit(refresh_schema_and_set_result, ...) *)
 Definition schema_change_path (e : env) (c : cfg) (polls : list poll) : future_obs :=
   if cluster_shutdown e then
-    {| f_is_schema_agreed := false; f_refreshed := false; f_resubmitted := false; f_final_set := true;
-       f_events := []; f_wait := None |}
+    let f := run_future (future_steps (Some false)) in
+    {| f_is_schema_agreed := fu_flag f; f_at_delivery := fu_delivered f; f_refreshed := false; f_resubmitted := false;
+       f_final_set := true; f_events := []; f_wait := None |}
   else
     let '(ev, o) := wait c (cc_shutdown e) None polls in
     let '(r, refreshed) := refresh_schema e o in
-    {| f_is_schema_agreed := match r with Some b => b | None => false end;
+    let f := run_future (future_steps r) in
+    {| f_is_schema_agreed := fu_flag f; f_at_delivery := fu_delivered f;
        f_refreshed := refreshed;
        f_resubmitted := match r with None => true | _ => false end;
        f_final_set := true;
@@ -221,12 +256,14 @@ Definition opt_obs_eqb (a : option outcome) (b : option obs_outcome) : bool :=
 
 (* impl side of a schema-change run, as recorded by the harness *)
 Record future_seen := {
-  i_is_schema_agreed : bool; i_refreshed : bool; i_resubmitted : bool; i_final_set : bool;
+  i_is_schema_agreed : bool; i_at_delivery : option bool; i_refreshed : bool; i_resubmitted : bool; i_final_set : bool;
   i_events : list event; i_wait : option obs_outcome
 }.
 
 Definition future_eqb (a : future_obs) (b : future_seen) : bool :=
-  Bool.eqb (f_is_schema_agreed a) (i_is_schema_agreed b) && Bool.eqb (f_refreshed a) (i_refreshed b) &&
+  Bool.eqb (f_is_schema_agreed a) (i_is_schema_agreed b) &&
+  match f_at_delivery a, i_at_delivery b with Some x, Some y => Bool.eqb x y | None, None => true | _, _ => false end &&
+  Bool.eqb (f_refreshed a) (i_refreshed b) &&
   Bool.eqb (f_resubmitted a) (i_resubmitted b) && Bool.eqb (f_final_set a) (i_final_set b) &&
   events_eqb (f_events a) (i_events b) && opt_obs_eqb (f_wait a) (i_wait b).
 
